@@ -65,6 +65,9 @@ type Behaviour struct {
 	TxMode string `json:"tx_mode,omitempty"`
 	// RefuseDial makes connection attempts fail.
 	RefuseDial bool `json:"refuse_dial,omitempty"`
+	// HandshakeDelayMs: the node answers the client's version message only
+	// after this long (fixes the order in which peers become usable).
+	HandshakeDelayMs int `json:"handshake_delay_ms,omitempty"`
 }
 
 func has(l []string, s string) bool {
@@ -309,6 +312,9 @@ func (n *Node) serve(k *nodeConn) {
 		}
 		switch m := msg.(type) {
 		case *wire.MsgVersion:
+			if b.HandshakeDelayMs > 0 {
+				time.Sleep(time.Duration(b.HandshakeDelayMs) * time.Millisecond)
+			}
 			sv := FullServices
 			if b.NoWitness {
 				sv &^= wire.SFNodeWitness
